@@ -569,9 +569,13 @@ package gnet
 //@   requires eng != nil
 //@   ensures res <==> shutd(eng)
 //
+// shutsig (bookkeeping): engine.shutdown has been called, i.e. the shutdown of the engine has been signalled.
+//@ ghost log shutsig bool
 //@ func (eng *engine) shutdown(err error)
 //@   noverify cancels the engine's context through a stored function value and logs
 //@   requires eng != nil
+//@   modifies shutsig
+//@   ghostdef shutsig := true
 //
 //@ iface loadBalancer.len() (n int)
 //@   ensures n >= 0
@@ -610,8 +614,11 @@ package gnet
 //@   ensures emptyeng(e) ==> fd == -1 && err == errorx.ErrEmptyEngine
 //@   ensures !emptyeng(e) && shutd(e.eng) ==> fd == -1 && err == errorx.ErrEngineInShutdown
 //
+// Stop: on a started engine that is not shut down yet the shutdown is signalled on every path, whatever the context says
+// (so a context that ends first does not cancel the shutdown); the wait loop behind it is not under proof.
 //@ func (e Engine) Stop(ctx context.Context) (err error)
-//@   requires engwf(e)
+//@   requires engwf(e) && ctx != nil
+//@   ensures !emptyeng(e) && !old(shutd(e.eng)) ==> shutsig
 //@   modifies-all-except eventloop, Options, listener
 //@   assert after (*engine).shutdown #1: !emptyeng(e) && !shutd(e.eng)
 //@   stop after (*engine).shutdown #1
@@ -682,3 +689,30 @@ package gnet
 //@   ensures c.isDatagram && nsnd[c.fd] != old(nsnd[c.fd]) ==> nsnd[c.fd] == old(nsnd[c.fd]) + 1 && sndn[c.fd] == len(p) && sndto[c.fd] != nil &&
 //@        (forall i :: 0 <= i && i < len(p) ==> snddata[c.fd][i] == p[i])
 //@   ensures c.isDatagram && typeis(addr, "*net.UDPAddr") && len(socket.asudp(addr).IP) == 4 && len(socket.asudp(addr).Zone) == 0 ==> nsnd[c.fd] == old(nsnd[c.fd]) + 1
+
+// ---------------------------------------------------------------------------------------------
+// Creation of a stream connection (accept in single-loop / reuse-port mode).
+// newStreamConn is NOT verified (noverify): its postcondition is the modelling convention for the initial ghost state of a
+// connection object that has just been allocated (nothing consumed, nothing accepted for sending, no callback delivered,
+// empty well-formed buffers); what the function really has to do for it is: store the arguments, Reset the outbound buffer.
+//@ func newStreamConn(proto string, fd int, el *eventloop, sa unix.Sockaddr, localAddr, remoteAddr net.Addr) (c *conn)
+//@   noverify initial ghost state of a fresh connection object (modelling convention); body: field initialisation only
+//@   requires el != nil && el.engine != nil && el.engine.opts != nil
+//@   ensures c != nil && fresh(c) && c.fd == fd && c.loop == el && !c.isDatagram && !c.opened && c.remote == sa && c.localAddr == localAddr && c.remoteAddr == remoteAddr &&
+//@        c.pollAttachment.FD == fd && c.phase == 0 && c.cons == 0 && nopen[c] == 0 && nclose[c] == 0 && !c.unflushed &&
+//@        iwf(c) && c.inboundBuffer.rb == nil && len(c.buffer) == 0 && len(c.cache) == 0 &&
+//@        (el.engine.opts.WriteBufferCap > 0 ==> elastic.bwf(c.outboundBuffer)) && c.outboundBuffer.ringBuffer.rb == nil && c.outboundBuffer.listBuffer.size == 0 && ocnt(c) == 0 &&
+//@        !lbufs[c.outboundBuffer.listBuffer][arr(el.buffer)]
+//
+// accept: one readable event of a stream listener in single-loop / reuse-port mode. The retryable errnos change nothing,
+// any other accept failure is reported as ErrAcceptSocket; a new connection owns the accepted descriptor, reports the
+// peer's address as RemoteAddr and the listener's address as LocalAddr, and goes through register0 (OnOpen exactly once).
+//@ func (el *eventloop) accept(fd int, ev netpoll.IOEvent, flags netpoll.IOFlags) (err error)
+//@   requires elwf(el) && owner[fd] != nil && has(el.listeners, fd) && el.listeners[fd] != nil && el.listeners[fd].network != "udp"
+//@   requires (typeis(el.listeners[fd].addr, "*net.TCPAddr") || typeis(el.listeners[fd].addr, "*net.UDPAddr")) ==> ref(el.listeners[fd].addr) != nil
+//@   requires el.engine.opts.WriteBufferCap > 0 && el.connections.connCount < 2147483647 && (forall f :: owner[f] == nil ==> reg(el.connections, f) == nil)
+//@   requires el.engine.opts.Logger != nil
+//@   modifies-all-except eventloop, engine, Options, netpoll.Poller, listener, map[int]*listener, ghost:kdata
+//@   modifies el.connections.connCount, *gfd.monoSeq
+//@   assert after newStreamConn #1: result.fd == nfd && owner[nfd] != nil && result.remote == sa && socket.tcpof(result.remoteAddr, sa) && result.localAddr == el.listeners[fd].addr && result.loop == el
+//@   ensures elwf(el)
